@@ -300,3 +300,325 @@ pub fn gen_c01(seed: u64, thorough: bool) {
         println!("{}", pipe_line("C01", &e, vdb, &lines, kind));
     }
 }
+
+// =========================================================================================== helpers
+pub type Traj = (Vec<Vec<f64>>, Vec<Vec<f64>>, Vec<Vec<f64>>);
+
+pub fn trajectories(e: &Engine, lines: &[String]) -> Result<Traj, String> {
+    let owned = lines.to_vec();
+    match catch(std::panic::AssertUnwindSafe(|| e.generator(owned))) {
+        Ok(Ok(g)) => {
+            let (a, b, c) = g.verif_parameters();
+            Ok((a.to_vec(), b.to_vec(), c.to_vec()))
+        }
+        Ok(Err(err)) => Err(format!("err:{err}")),
+        Err(site) => Err(format!("panic:{site}")),
+    }
+}
+
+pub fn same_bits(a: &[Vec<f64>], b: &[Vec<f64>]) -> bool {
+    a.len() == b.len() && a.iter().zip(b).all(|(x, y)| x.len() == y.len() && x.iter().zip(y).all(|(p, q)| p.to_bits() == q.to_bits()))
+}
+
+fn column0(m: &[Vec<f64>]) -> Vec<f64> {
+    m.iter().map(|r| r.first().copied().unwrap_or(f64::NAN)).collect()
+}
+
+fn impl_durations(e: &Engine, lines: &[String]) -> Vec<usize> {
+    let labs = Labels::load_from_strings(e.condition.get_sampling_frequency(), e.condition.get_fperiod(), lines).expect("labels");
+    let models = Models::new(labs.labels(), &e.voices, e.condition.get_interporation_weight());
+    let est = DurationEstimator::new(models.duration(), models.nstate());
+    if e.condition.get_phoneme_alignment_flag() { est.create_with_alignment(labs.times()) } else { est.create(e.condition.get_speed()) }
+}
+
+fn stream_states(e: &Engine, lines: &[String], i: usize) -> Vec<(Vec<MeanVari>, f64)> {
+    let labs = Labels::load_from_strings(e.condition.get_sampling_frequency(), e.condition.get_fperiod(), lines).expect("labels");
+    let models = Models::new(labs.labels(), &e.voices, e.condition.get_interporation_weight());
+    models.model_stream(i).stream.iter().cloned().collect()
+}
+
+/// PDF-perturbed copy of a voice (same trees and metadata), through its serde representation
+pub fn perturb_voice(v: &jbonsai::model::Voice, rng: &mut Rng) -> jbonsai::model::Voice {
+    fn walk(val: &mut serde_json::Value, rng: &mut Rng, in_pdf: bool) {
+        match val {
+            serde_json::Value::Object(m) => {
+                for (k, x) in m.iter_mut() {
+                    let pdf = in_pdf || k == "pdf";
+                    if pdf && k == "msd" {
+                        if let Some(f) = x.as_f64() {
+                            *x = serde_json::json!((f + rng.uniform(-0.3, 0.3)).clamp(0.0, 1.0));
+                        }
+                    } else {
+                        walk(x, rng, pdf);
+                    }
+                }
+            }
+            serde_json::Value::Array(a) => {
+                if in_pdf && a.len() == 2 && a[0].is_number() && a[1].is_number() {
+                    let m = a[0].as_f64().unwrap();
+                    let s = a[1].as_f64().unwrap();
+                    a[0] = serde_json::json!(m + rng.normal() * 0.15 * s.abs().sqrt());
+                    a[1] = serde_json::json!(s * rng.uniform(0.8, 1.25));
+                } else {
+                    for x in a.iter_mut() {
+                        walk(x, rng, in_pdf);
+                    }
+                }
+            }
+            _ => {}
+        }
+    }
+    let mut val = serde_json::to_value(v).expect("voice serializes");
+    walk(&mut val, rng, false);
+    serde_json::from_value(val).expect("voice deserializes")
+}
+
+// =========================================================================================== C11
+pub fn gen_c11(seed: u64, thorough: bool) {
+    let mut rng = Rng::new(seed);
+    let src = Sources::new();
+    let n = if thorough { 2500 } else { 150 };
+    let bundled_voice = jbonsai::model::load_htsvoice_file(&BUNDLED_VOICE).unwrap();
+    for i in 0..n {
+        let (mut e, kind) = match i % 4 {
+            0 => (src.bundled.clone(), "bundled"),
+            1 => (engine_of(vec![Arc::new(perturb_voice(&bundled_voice, &mut rng))]).unwrap(), "perturbed"),
+            _ => {
+                let ns = rng.range(2, 3);
+                let nst = rng.range(1, 6);
+                (src.generated(&mut rng, ns, 0, nst), "generated")
+            }
+        };
+        let ns = e.voices.global_metadata().num_streams;
+        random_condition(&mut rng, &mut e, true);
+        e.condition.set_phoneme_alignment_flag(false);
+        let nlab = rng.range(2, 6);
+        let recombine = rng.chance(0.5);
+        let lines = src.labels(&mut rng, nlab, recombine);
+        // thresholds incl. exactly the MSD values present, 0 and 1
+        let states = stream_states(&e, &lines, 1);
+        let pick_thr = |rng: &mut Rng| -> f64 {
+            match rng.below(4) {
+                0 => states[rng.below(states.len())].1.clamp(0.0, 1.0),
+                1 => *rng.pick(&[0.0, 1.0, 0.5]),
+                _ => rng.unit(),
+            }
+        };
+        let (mut t1, mut t2) = (pick_thr(&mut rng), pick_thr(&mut rng));
+        if t1 > t2 { std::mem::swap(&mut t1, &mut t2); }
+        e.condition.set_msd_threshold(1, t1);
+        let durs = impl_durations(&e, &lines);
+        let a = trajectories(&e, &lines);
+        let mut eb = e.clone();
+        eb.condition.set_msd_threshold(1, t2);
+        let b = trajectories(&eb, &lines);
+        // C: touch stream 0 (and 2): stream 1 must be unchanged
+        let mut ec = e.clone();
+        ec.condition.set_msd_threshold(0, rng.unit());
+        ec.condition.set_gv_weight(0, rng.uniform(0.0, 2.0));
+        if ns > 2 {
+            ec.condition.set_msd_threshold(2, rng.unit());
+            ec.condition.set_gv_weight(2, rng.uniform(0.0, 2.0));
+        }
+        let c = trajectories(&ec, &lines);
+        // D: touch stream 1: streams 0 and 2 must be unchanged
+        let mut ed = e.clone();
+        ed.condition.set_msd_threshold(1, rng.unit());
+        ed.condition.set_gv_weight(1, rng.uniform(0.0, 2.0));
+        let d = trajectories(&ed, &lines);
+        let mut line = format!("thr {}", kind);
+        push_f(&mut line, t1);
+        push_f(&mut line, t2);
+        push_u(&mut line, states.len());
+        for s in &states { push_f(&mut line, s.1); }
+        push_us(&mut line, &durs);
+        match (a, b, c, d) {
+            (Ok(a), Ok(b), Ok(c), Ok(d)) => {
+                push_s(&mut line, "ok");
+                push_fs(&mut line, &column0(&a.1));
+                push_fs(&mut line, &column0(&b.1));
+                push_u(&mut line, same_bits(&a.1, &c.1) as usize);
+                push_u(&mut line, (same_bits(&a.0, &d.0) && same_bits(&a.2, &d.2)) as usize);
+            }
+            (a, b, c, d) => {
+                push_s(&mut line, "fail");
+                push_s(&mut line, &esc(&format!("{:?}", [a.err(), b.err(), c.err(), d.err()])));
+            }
+        }
+        println!("{}", line);
+    }
+}
+
+// =========================================================================================== C15
+pub fn gen_c15(seed: u64, thorough: bool) {
+    let mut rng = Rng::new(seed);
+    let src = Sources::new();
+    let n = if thorough { 1500 } else { 80 };
+    let bundled_voice = jbonsai::model::load_htsvoice_file(&BUNDLED_VOICE).unwrap();
+    for i in 0..n {
+        let (mut e, kind) = match i % 3 {
+            0 => (src.bundled.clone(), "bundled"),
+            1 => (engine_of(vec![Arc::new(perturb_voice(&bundled_voice, &mut rng))]).unwrap(), "perturbed"),
+            _ => { let ns = rng.range(2, 3); let nst = rng.range(1, 6); (src.generated(&mut rng, ns, 0, nst), "generated") }
+        };
+        random_condition(&mut rng, &mut e, true);
+        let nlab = rng.range(2, 6);
+        let recombine = rng.chance(0.5);
+        let lines = src.labels(&mut rng, nlab, recombine);
+        let h = match i % 5 { 0 => 0.0, 1 => *rng.pick(&[24.0, -24.0, 12.0, -12.0, 1.0]), 2 => rng.uniform(-80.0, 80.0), _ => rng.uniform(-24.0, 24.0) };
+        e.condition.set_additional_half_tone(0.0);
+        let base = trajectories(&e, &lines);
+        let states = stream_states(&e, &lines, 1);
+        let mut eh = e.clone();
+        eh.condition.set_additional_half_tone(h);
+        let shifted = trajectories(&eh, &lines);
+        let mut line = format!("ht {}", kind);
+        push_f(&mut line, h);
+        push_u(&mut line, states.len());
+        for s in &states { push_f(&mut line, s.0[0].0); }
+        match (base, shifted) {
+            (Ok(a), Ok(b)) => {
+                push_s(&mut line, "ok");
+                push_fs(&mut line, &column0(&a.1));
+                push_fs(&mut line, &column0(&b.1));
+                push_u(&mut line, same_bits(&a.0, &b.0) as usize);
+                push_u(&mut line, same_bits(&a.2, &b.2) as usize);
+                push_u(&mut line, same_bits(&a.1, &b.1) as usize);
+            }
+            (a, b) => {
+                push_s(&mut line, "fail");
+                push_s(&mut line, &esc(&format!("{:?}", [a.err(), b.err()])));
+            }
+        }
+        println!("{}", line);
+    }
+}
+
+// =========================================================================================== C16
+pub fn gen_c16(seed: u64, thorough: bool) {
+    let mut rng = Rng::new(seed);
+    let src = Sources::new();
+    crate::voc::gen_c16_stage(&mut rng, if thorough { 600 } else { 40 });
+    let n = if thorough { 600 } else { 40 };
+    for i in 0..n {
+        let (mut e, kind) = src.any_engine(&mut rng);
+        random_condition(&mut rng, &mut e, true);
+        let nlab = rng.range(1, 3);
+        let lines = src.labels(&mut rng, nlab, false);
+        let v = if i % 6 == 0 { *rng.pick(&[6.0205999132796239, -6.0205999132796239, 60.0, -60.0, 20.0]) } else { rng.uniform(-60.0, 60.0) };
+        e.condition.set_volume(0.0);
+        let w0 = catch(std::panic::AssertUnwindSafe(|| e.synthesize(lines.clone()).map_err(|x| format!("{x}"))));
+        let mut before = String::new();
+        crate::c20::dump(&e.condition, e.voices.global_metadata().num_streams, &mut before);
+        e.condition.set_volume(v);
+        let mut after = String::new();
+        crate::c20::dump(&e.condition, e.voices.global_metadata().num_streams, &mut after);
+        let wv = catch(std::panic::AssertUnwindSafe(|| e.synthesize(lines.clone()).map_err(|x| format!("{x}"))));
+        let mut line = format!("vol {}", kind);
+        push_f(&mut line, v);
+        push_f(&mut line, e.condition.get_volume());
+        // every getter except volume is token-identical
+        let strip = |s: &str| -> Vec<String> { s.split_whitespace().enumerate().filter(|(k, _)| *k != 2).map(|(_, t)| t.to_string()).collect() };
+        push_u(&mut line, (strip(&before) == strip(&after)) as usize);
+        match (w0, wv) {
+            (Ok(Ok(a)), Ok(Ok(b))) => {
+                push_s(&mut line, "ok");
+                push_fs(&mut line, &a);
+                push_fs(&mut line, &b);
+            }
+            _ => push_s(&mut line, "fail"),
+        }
+        println!("{}", line);
+    }
+}
+
+// =========================================================================================== C12
+pub fn gen_c12(seed: u64, thorough: bool) {
+    use jbonsai::mlpg_adjust::MlpgAdjust;
+    let mut rng = Rng::new(seed);
+    let src = Sources::new();
+    let n = if thorough { 600 } else { 40 };
+    let bundled_voice = jbonsai::model::load_htsvoice_file(&BUNDLED_VOICE).unwrap();
+    // (a) stage-level model correspondence with GV on small streams
+    for _ in 0..(if thorough { 2000 } else { 120 }) {
+        let msd = rng.chance(0.5);
+        let mut c = crate::c05::random_stream(&mut rng, 24, msd);
+        let nst = c.stream.len();
+        c.gvw = rng.uniform(0.25, 2.0);
+        let gvp: Vec<MeanVari> = (0..c.veclen).map(|_| MeanVari(rng.log_uniform(0.05, 2.0), rng.log_uniform(0.001, 0.5))).collect();
+        let style = rng.below(4);
+        let sw: Vec<bool> = (0..nst).map(|_| match style { 0 => true, 1 => false, _ => rng.chance(0.7) }).collect();
+        c.gv = Some((gvp, sw));
+        let mut line = String::from("mlpg");
+        c.push(&mut line);
+        crate::c05::push_traj(&mut line, &c.run());
+        println!("{}", line);
+    }
+    // (b) the property on the bundled voice and perturbed copies
+    for i in 0..n {
+        let (e0, kind) = if i % 2 == 0 { (src.bundled.clone(), "bundled") } else { (engine_of(vec![Arc::new(perturb_voice(&bundled_voice, &mut rng))]).unwrap(), "perturbed") };
+        let silence_only = i % 8 == 7;
+        let lines: Vec<String> = if silence_only {
+            src.corpus.iter().filter(|l| l.contains("-sil+") || l.contains("-pau+")).take(rng.range(1, 3)).cloned().collect()
+        } else {
+            let nlab = rng.range(10, 60);
+            if rng.chance(0.5) { src.labels(&mut rng, nlab, false) } else { (0..nlab).map(|_| src.corpus[rng.below(src.corpus.len())].clone()).collect() }
+        };
+        let stream = rng.below(2);
+        let mut ws: Vec<f64> = (0..3).map(|_| rng.uniform(0.25, 2.0)).collect();
+        ws.sort_by(|a, b| a.partial_cmp(b).unwrap());
+        let labs = Labels::load_from_strings(e0.condition.get_sampling_frequency(), e0.condition.get_fperiod(), &lines).expect("labels");
+        let models = Models::new(labs.labels(), &e0.voices, e0.condition.get_interporation_weight());
+        let ms = models.model_stream(stream);
+        let (gvp, gvsw) = ms.gv.clone().expect("bundled GV streams");
+        let durs = impl_durations(&e0, &lines);
+        let mut line = format!("gvv {} {}", kind, stream);
+        push_fs(&mut line, &ws);
+        push_u(&mut line, gvp.len());
+        for MeanVari(m, _) in &gvp { push_f(&mut line, *m); }
+        let mut eligible_count = 0usize;
+        let mut ml_equal = true;
+        let mut vars: Vec<Vec<f64>> = Vec::new();
+        for w in &ws {
+            let mut e = e0.clone();
+            e.condition.set_gv_weight(stream, *w);
+            let t = trajectories(&e, &lines).expect("trajectories");
+            let tr = if stream == 0 { &t.0 } else { &t.1 };
+            // eligible frames: GV switch of the state, and (for log-F0) voiced
+            let mut elig: Vec<usize> = Vec::new();
+            let mut f = 0usize;
+            for (k, d) in durs.iter().enumerate() {
+                for _ in 0..*d {
+                    if gvsw[k] && tr[f][0] != -1e10 { elig.push(f); }
+                    f += 1;
+                }
+            }
+            eligible_count = elig.len();
+            let dim = tr.first().map(|r| r.len()).unwrap_or(0);
+            let mut v = Vec::new();
+            for m in 0..dim {
+                let mean: f64 = elig.iter().map(|f| tr[*f][m]).sum::<f64>() / elig.len().max(1) as f64;
+                v.push(elig.iter().map(|f| (tr[*f][m] - mean).powi(2)).sum::<f64>() / elig.len().max(1) as f64);
+            }
+            vars.push(v);
+            if elig.is_empty() {
+                // must equal the plain ML solution: same stream without GV through the public stage API
+                let ms2 = models.model_stream(stream);
+                let ml = MlpgAdjust::new(*w, e.condition.get_msd_threshold(stream), ModelStream { gv: None, ..ms2 }).create(&durs);
+                ml_equal &= same_bits(&ml, tr);
+            }
+        }
+        push_u(&mut line, eligible_count);
+        for v in &vars { push_fs(&mut line, v); }
+        push_u(&mut line, ml_equal as usize);
+        // a stream without GV (low-pass) is unaffected by its GV weight
+        let mut e1 = e0.clone();
+        e1.condition.set_gv_weight(2, 0.3);
+        let mut e2 = e0.clone();
+        e2.condition.set_gv_weight(2, 1.7);
+        let short: Vec<String> = lines.iter().take(4).cloned().collect();
+        let (t1, t2) = (trajectories(&e1, &short).unwrap(), trajectories(&e2, &short).unwrap());
+        push_u(&mut line, same_bits(&t1.2, &t2.2) as usize);
+        println!("{}", line);
+    }
+}
